@@ -132,6 +132,7 @@ func closeNode(r *mon.Run, prefix string, node *limitlab.Node, cse any) bool {
 
 func runInboundCap(r *mon.Run, c InboundCapCase) {
 	r.Eval()
+	transportsBefore := len(limitlab.TransportGoroutines())
 	w := limitlab.NewWorld(uint64(r.Seed)<<16 ^ uint64(c.Index) ^ 0xB<<40)
 	node, err := w.NewNode(limitlab.NodeConfig{IP: victimIP(c.Index + 40), Opts: []syncer.Option{
 		syncer.WithSyncInterval(time.Hour), syncer.WithPeerDiscoveryInterval(time.Hour),
@@ -213,7 +214,16 @@ func runInboundCap(r *mon.Run, c InboundCapCase) {
 	for _, a := range atts {
 		a.Close()
 	}
-	closeNode(r, "caps", node, c)
+	if !closeNode(r, "caps", node, c) {
+		return
+	}
+	// every attacker has closed its multiplexer and the syncer is closed: the
+	// transports of the connections it turned away must be gone as well
+	if left, ok := limitlab.SettleTransports(transportsBefore, settleBound); !ok {
+		r.Count("caps.transport_goroutines_left_behind", len(left)-transportsBefore)
+		r.Violation("transport-goroutines-left-behind:rejected-inbound-peer", fmt.Sprintf("%d multiplexer goroutines of the syncer's transports are still running after Syncer.Close returned and every remote peer hung up (%d of %d inbound connections had been turned away after their handshake): a rejected connection's transport is never closed, only its socket", len(left)-transportsBefore, handshook-admitted, c.N),
+			c, map[string]any{"left": len(left) - transportsBefore, "handshakes": handshook, "admitted": admitted, "sample": limitlab.Stacks(left, 3)})
+	}
 }
 
 func runOutboundCap(r *mon.Run, c OutboundCapCase) {
